@@ -207,6 +207,45 @@ def generated_problems():
                 p.add_state_invariant(LE(n, 4))
             p.add_goal(q)
             out[p.name] = p
+        # state invariants only / trajectory constraints only (always, sometime) / both, crossed with an unconditional vs a
+        # conditional effect on the constrained fluent (TrajectoryConstraintsRemover, StateInvariantsRemover)
+        from unified_planning.shortcuts import Always, Sometime
+        for cons in ("invariant", "always", "sometime", "both"):
+            for eff in ("uncond", "cond"):
+                p = Problem("gen_tc_%s_%s" % (cons, eff))
+                safe, c, q = Fluent("safe"), Fluent("c"), Fluent("q")
+                p.add_fluent(safe, default_initial_value=True)
+                p.add_fluent(c, default_initial_value=False)
+                p.add_fluent(q, default_initial_value=False)
+                risk = InstantaneousAction("risk")
+                if eff == "cond":
+                    risk.add_effect(safe, False, condition=c)
+                    risk.add_effect(c, True, condition=q)
+                else:
+                    risk.add_effect(safe, False)
+                setc = InstantaneousAction("setc")
+                setc.add_effect(c, True)
+                fin = InstantaneousAction("fin")
+                fin.add_effect(q, True)
+                for a in (risk, setc, fin):
+                    p.add_action(a)
+                if cons in ("invariant", "both"):
+                    p.add_state_invariant(safe)
+                if cons == "always":
+                    p.add_trajectory_constraint(Always(safe))
+                if cons in ("sometime", "both"):
+                    p.add_trajectory_constraint(Sometime(c))
+                p.add_goal(q)
+                out[p.name] = p
+        # the other trajectory-constraint operators (monitoring atoms maintained by conditional effects)
+        from unified_planning.shortcuts import SometimeBefore, SometimeAfter, AtMostOnce, And
+        for nm, mk in (("sometime_and", lambda c, q: Sometime(And(c, q))), ("sometime_after", lambda c, q: SometimeAfter(c, q)),
+                       ("sometime_before", lambda c, q: SometimeBefore(c, q)), ("at_most_once", lambda c, q: AtMostOnce(c))):
+            p = out["gen_tc_sometime_uncond"].clone()
+            p.name = "gen_tc_" + nm
+            p.clear_trajectory_constraints()
+            p.add_trajectory_constraint(mk(p.fluent("c")(), p.fluent("q")()))
+            out[p.name] = p
         # an interpreted function whose (object) value is assigned to an object fluent
         try:
             from collections import OrderedDict
@@ -288,8 +327,12 @@ def run(ctx):
     compilers = [n for n in registered if factory.engine(n).is_compiler()]
     classes = {n: factory.engine(n) for n in registered}
     rev = {c: n for n, c in classes.items()}
-    eidx = {n: i for i, n in enumerate(registered)}
-    pre_names = "Definition ENG := %s.\n" % glist([gstr(n) for n in registered])
+    extra = I.extra_compilers()                     # compiler classes the factory does not register (e.g. TrajectoryConstraintsRemover)
+    classes.update(extra)
+    compilers = compilers + sorted(extra)
+    allnames = registered + sorted(extra)
+    eidx = {n: i for i, n in enumerate(allnames)}
+    pre_names = "Definition ENG := %s.\n" % glist([gstr(n) for n in allnames])
     budget = 2.0 if ctx.quick else 10.0
 
     def feats_minus(a, b):
